@@ -3,7 +3,7 @@
    followed by Print Assumptions.  The model [merge] (M_Merge) is tied to profile.Merge of /repo's
    current tree by the correspondence check on full result dumps (R_C03). *)
 From Coq Require Import List ZArith String Bool Permutation.
-From PV Require Import M_Merge S_Merge L_Assoc L_Merge L_SampleKey L_Compact.
+From PV Require Import M_Merge S_Merge L_Assoc L_Merge L_SampleKey L_Compact M_MergeMemo L_MergeMemo.
 Import ListNotations.
 Open Scope Z_scope.
 
@@ -122,6 +122,13 @@ Theorem sample_key_injective : forall a b,
   skey_ok a -> skey_ok b -> skey_bytes a = skey_bytes b -> a = b.
 Proof. exact skey_bytes_injective_lemma. Qed.
 Print Assumptions sample_key_injective.
+
+(* -- the theorems above are about the model without the per-source memo tables
+   (functionsByID / mappingsByID / locationsByID); the transcription WITH them (M_MergeMemo) computes
+   the same result for every input, so they hold for it as well -- *)
+Theorem merge_memo_equiv : forall ps, merge_m ps = merge ps.
+Proof. exact merge_memo_equiv_lemma. Qed.
+Print Assumptions merge_memo_equiv.
 
 (* -- non-vacuity -- *)
 Definition ex_vt := {| vt_type := "samples"; vt_unit := "count" |}.
